@@ -76,7 +76,7 @@ class Built:
         dll = hist[0][1]
         wx, wy, self.exact = (hist[0][2], hist[0][3], hist[0][4]) if len(hist[0]) > 3 else (2, 2, False)
         self.dll = dll
-        sc = {'dll': dll, 'base_lat': 1e-3,
+        sc = {'dll': dll, 'base_lat': 1e-3, 'zero_ts': len(hist[0]) > 5 and bool(hist[0][5]),
               'stacks': [{'name': 'X', 'cas': [XA, XB], 'win': wx}, {'name': 'Y', 'cas': [YA, YB], 'win': wy}]}
         self.net = net = Net(sc)
         self.x, self.y = net.stacks
@@ -332,7 +332,7 @@ def burst_worker(item):
     acc = Acc()
     dll = cfg[1]
     wx, wy, exact = cfg[2], cfg[3], cfg[4]
-    sc = {'dll': dll, 'base_lat': 1e-3,
+    sc = {'dll': dll, 'base_lat': 1e-3, 'zero_ts': len(cfg) > 5 and bool(cfg[5]),
           'stacks': [{'name': 'X', 'cas': [XA, XB], 'win': wx}, {'name': 'Y', 'cas': [YA, YB], 'win': wy},
                      {'name': 'Z', 'cas': [ZA, ZB], 'win': wy}]}
     net = Net(sc)
@@ -435,11 +435,12 @@ def run(tier, seed):
                 [(2, 2, False), (1, 1, True), (255, 255, False), (1, 255, True), (255, 2, False), (2, 1, True)]
             for (wx, wy, exact) in wins:
                 cfgs.append(('cfg', dll, wx, wy, exact))
+            cfgs.append(('cfg', dll, 2, 2, False, True))      # a backend that delivers every frame with time stamp 0.0
         for cfg in cfgs:
             dll = cfg[1]
             depth = 3 if tier == 'quick' else 6
             r = mc.bfs('vf.props.c10', [[cfg]], lambda i, d=depth: d, acc, probe=True, sig=csig)
-            info['%s windows %d/%d%s' % (dll, cfg[2], cfg[3], ' exact-multiple sizes' if cfg[4] else '')] = {'states_per_level': r['levels'], 'depth_completed': r['depth_completed'],
+            info['%s windows %d/%d%s%s' % (dll, cfg[2], cfg[3], ' exact-multiple sizes' if cfg[4] else '', ' zero time stamps' if len(cfg) > 5 else '')] = {'states_per_level': r['levels'], 'depth_completed': r['depth_completed'],
                          'frontier_emptied': r['frontier_emptied'], 'episode_alphabet': len(alphabet([cfg]))}
             for dig, h in list(r['seen'].items())[:1]:
                 acc.sample({'history': h})
